@@ -109,6 +109,13 @@ def main(tier, seed):
             for sm in (None, "r", "a", "w+"):
                 jobs.append((j, sk, sm, o))
                 j += 1
+    # ... and removals that name a whole measurement by the plain query `MeasurementQuery() == name` AFTER measurement(name) has handed out a handle:
+    # one that removes points, one (an empty measurement) that removes nothing
+    for xk in ("handle_then_remove_measurement", "handle_then_remove_empty_measurement"):
+        for sm in (None, "r+", "r", "a", "w+"):
+            for o in range(2):
+                jobs.append((j, xk, sm, o))
+                j += 1
     for i, kind_over, mode_over, opt_over in jobs:
         g = dbgen.Gen((seed << 14) + i, {"p_selective": 1.0, "allow_raise": False})
         g.opt = opt_over
@@ -147,7 +154,13 @@ def main(tier, seed):
             auto = True
             pts.sort(key=lambda p: p["time"])
             hist = [("insert", pts, None, "multiple")]
-        op = make_op(g, kind)
+        if kind.startswith("handle_then_remove"):
+            name = pts[0]["meas"] if kind == "handle_then_remove_measurement" else "m3"
+            hist += [("handle", name, ("len",)), ("handle", name, ("count", ("noop", "tags")))]
+            mq = ("S", "meas", [], ("cmp", "==", ("s", name)))
+            op = ("remove", mq, None) if opt_over == 0 else ("remove", mq, name)
+        else:
+            op = make_op(g, kind)
         if kind == "update_nochange" and opt_over is None and (i // len(kinds)) % 3 != 2:
             # the time a point already has, handed in again - in another zone, or as a naive datetime (local time): the same instant, no change;
             # the rows are in compact-prefix form, so a needless rewrite shows in the bytes
@@ -200,7 +213,7 @@ def main(tier, seed):
         seen.add(json.dumps([kind, mode, op], default=str))
         ev = rec["events"]
         raised = rec["out"][0] == "raise"
-        pure = kind in PURE_KINDS
+        pure = kind in PURE_KINDS or kind == "handle_then_remove_empty_measurement"
         # mode "a" may append (insert) but not rewrite; mode "r" may do neither
         readonly = mode == "r" or (mode == "a" and not kind.startswith("insert"))
         why = None
@@ -215,7 +228,7 @@ def main(tier, seed):
                 why = "a read / no-op operation wrote to the primary file"
         elif mode in ("r", "a") and kind in ("remove_none", "update_nochange", "update_nomatch", "update_all_same", "unset_other_namespace", "time_neighbour_nomatch") and not raised:
             why = f"a write operation (although it would change nothing) on a database opened with access mode {mode!r} did not raise"
-        elif readonly and kind in WRITE_KINDS:
+        elif readonly and (kind in WRITE_KINDS or kind == "handle_then_remove_measurement"):
             if not raised:
                 why = f"a write on a database opened with access mode {mode!r} did not raise"
             elif rec["before_bytes"] != rec["after_bytes"]:
